@@ -93,6 +93,132 @@ def sdf_tables(repo):
     return out
 
 
+# ---------------------------------------------------------------- Extrude's per-division 2x2 map
+class Poly:
+    """polynomial with integer coefficients in the symbols sx sy c s (dict: sorted tuple of symbols -> coefficient)"""
+    def __init__(self, d=None):
+        self.d = {k: v for k, v in (d or {}).items() if v != 0}
+
+    @staticmethod
+    def of(x):
+        if isinstance(x, Poly):
+            return x
+        if isinstance(x, (int, float)) and float(x) == int(x):
+            return Poly({(): int(x)})
+        raise TranslateError("non-integral constant %r in Extrude's matrix" % (x,))
+
+    def __add__(self, o):
+        o = Poly.of(o)
+        d = dict(self.d)
+        for k, v in o.d.items():
+            d[k] = d.get(k, 0) + v
+        return Poly(d)
+    __radd__ = __add__
+
+    def __neg__(self):
+        return Poly({k: -v for k, v in self.d.items()})
+
+    def __sub__(self, o):
+        return self + (-Poly.of(o))
+
+    def __rsub__(self, o):
+        return Poly.of(o) - self
+
+    def __mul__(self, o):
+        if isinstance(o, (Vec2, Mat2)):
+            return NotImplemented
+        o = Poly.of(o)
+        d = {}
+        for k1, v1 in self.d.items():
+            for k2, v2 in o.d.items():
+                k = tuple(sorted(k1 + k2))
+                d[k] = d.get(k, 0) + v1 * v2
+        return Poly(d)
+    __rmul__ = __mul__
+
+    def coq(self):
+        if not self.d:
+            return "0"
+        return " + ".join("(%d)%s" % (v, "".join(" * " + x for x in k)) for k, v in sorted(self.d.items()))
+
+
+class Vec2:
+    def __init__(self, x, y=None):
+        self.x, self.y = Poly.of(x), Poly.of(x if y is None else y)
+
+
+class Mat2:
+    """column major like linalg.h: Mat2(col0, col1)"""
+    def __init__(self, c0, c1):
+        if not (isinstance(c0, Vec2) and isinstance(c1, Vec2)):
+            raise TranslateError("mat2 constructor with non-vector arguments")
+        self.c0, self.c1 = c0, c1
+
+    def __mul__(self, o):
+        if isinstance(o, Vec2):
+            return Vec2(self.c0.x * o.x + self.c1.x * o.y, self.c0.y * o.x + self.c1.y * o.y)
+        if isinstance(o, Mat2):
+            return Mat2(self * o.c0, self * o.c1)
+        raise TranslateError("unsupported product with a mat2")
+
+
+def extrude_matrix(repo):
+    """Symbolically evaluates the statements of Manifold::Extrude's division loop that build `transform` (the 2x2 map
+    applied as `transform * poly[vert]`) with scale = (sx, sy), cosd(phi) = c, sind(phi) = s.
+    Returns the four polynomial entries (xx, xy, yx, yy): pos.x = xx*x + xy*y, pos.y = yx*x + yy*y."""
+    src = _strip_comments(open(os.path.join(repo, "src/constructors.cpp")).read())
+    m = re.search(r"Manifold Manifold::Extrude\(", src)
+    if not m:
+        raise TranslateError("Manifold::Extrude not found")
+    body = src[m.end():]
+    a = re.search(r"vec2\s+scale\s*=\s*la::lerp\(vec2\(1\.0\),\s*scaleTop,\s*alpha\)\s*;", body)
+    b = re.search(r"size_t\s+j\s*=\s*0\s*;", body)
+    if not a or not b or b.start() < a.end():
+        raise TranslateError("Extrude: `vec2 scale = la::lerp(vec2(1.0), scaleTop, alpha);` ... `size_t j = 0;` not found")
+    if not re.search(r"vec2\s+pos\s*=\s*transform\s*\*\s*poly\[vert\]\s*;", body):
+        raise TranslateError("Extrude: use site `vec2 pos = transform * poly[vert];` not found")
+    if not re.search(r"double\s+phi\s*=\s*alpha\s*\*\s*twistDegrees\s*;", body[:a.start()]):
+        raise TranslateError("Extrude: `double phi = alpha * twistDegrees;` not found")
+    stmts = [t.strip() for t in body[a.end():b.start()].split(";") if t.strip()]
+
+    def trig(name):
+        def f(arg):
+            if arg is not PHI:
+                raise TranslateError("%s applied to something other than phi" % name)
+            return Poly({(name,): 1})
+        return f
+    PHI = object()
+    env = {"scale": Vec2(Poly({("sx",): 1}), Poly({("sy",): 1})), "phi": PHI, "cosd": trig("c"), "sind": trig("s"),
+           "M": Mat2, "V": Vec2, "__builtins__": {}}
+
+    def conv(e):
+        e = re.sub(r"\bmat2\s*\(", "M(", e)
+        e = re.sub(r"\bvec2\s*\(", "V(", e)
+        e = e.replace("{", "V(").replace("}", ")")
+        if re.search(r"[^\w\s.,()*+\-]", e):
+            raise TranslateError("unsupported expression in Extrude's matrix construction: %r" % e)
+        return e
+    for st in stmts:
+        st = " ".join(st.split())
+        m1 = re.match(r"(?:const\s+)?(?:double|mat2|vec2|auto)\s+(\w+)\s*=\s*(.+)$", st)
+        m2 = re.match(r"(?:const\s+)?mat2\s+(\w+)\s*\((.+)\)$", st)
+        try:
+            if m1:
+                env[m1.group(1)] = eval(conv(m1.group(2)), env)
+            elif m2:
+                env[m2.group(1)] = eval("M(" + conv(m2.group(2)) + ")", env)
+            else:
+                raise TranslateError("unsupported statement in Extrude's matrix construction: %r" % st)
+        except TranslateError:
+            raise
+        except Exception as ex:
+            raise TranslateError("cannot evaluate %r: %s" % (st, ex))
+    t = env.get("transform")
+    if not isinstance(t, Mat2):
+        raise TranslateError("Extrude: `transform` is not a mat2 after the matrix statements")
+    return t.c0.x, t.c1.x, t.c0.y, t.c1.y
+
+
 def coq_list(ts):
     return "[" + "; ".join("(" + ", ".join(str(x) if x >= 0 else "(%d)" % x for x in t) + ")" for t in ts) + "]"
 
@@ -108,6 +234,9 @@ def emit(repo, path):
         L.append("Definition %s_tris : list (Z * Z * Z) := %s." % (nm, coq_list(t)))
     L.append("Definition tet_tri0 : list (Z * Z * Z) := %s." % coq_list(sd["tetTri0"]))
     L.append("Definition tet_tri1 : list (Z * Z * Z) := %s." % coq_list(sd["tetTri1"]))
+    xx, xy, yx, yy = extrude_matrix(repo)
+    for nm, pl in (("xx", xx), ("xy", xy), ("yx", yx), ("yy", yy)):
+        L.append("Definition extrude_m_%s (sx sy c s : Z) : Z := %s." % (nm, pl.coq()))
     L.append("Definition bcc_neighbors : list (Z * Z * Z * Z) := %s." % coq_list(sd["neighbors"]))
     txt = "\n".join(L) + "\n"
     old = open(path).read() if os.path.exists(path) else None
